@@ -303,6 +303,22 @@ func main() {
 			var mu sync.Mutex
 			var got [][]byte
 			var inflight, overlap int32
+			// every third connection: in front of the recording handler sits a one-shot subscriber that takes itself out
+			// (RemoveIncomingHandler with the identifier it was given) while it is being given its first message, and
+			// behind it a second recording handler: both recorders are given every message once
+			oneShot := i%3 == 0
+			var got2 [][]byte
+			if oneShot {
+				var id int64
+				var fired int32
+				id = h.HandleIncoming(simplefixgo.AllMsgTypes, func(m []byte) bool {
+					if atomic.CompareAndSwapInt32(&fired, 0, 1) {
+						_ = h.RemoveIncomingHandler(simplefixgo.AllMsgTypes, id)
+					}
+					return true
+				})
+				c.Count("connections_with_a_self_removing_incoming_handler", 1)
+			}
 			h.HandleIncoming(simplefixgo.AllMsgTypes, func(m []byte) bool {
 				if atomic.AddInt32(&inflight, 1) != 1 {
 					atomic.AddInt32(&overlap, 1)
@@ -313,6 +329,14 @@ func main() {
 				atomic.AddInt32(&inflight, -1)
 				return true
 			})
+			if oneShot {
+				h.HandleIncoming(simplefixgo.AllMsgTypes, func(m []byte) bool {
+					mu.Lock()
+					got2 = append(got2, append([]byte(nil), m...))
+					mu.Unlock()
+					return true
+				})
+			}
 			ini := simplefixgo.NewInitiator(conn, h, buf, 5*time.Second)
 			done := make(chan struct{})
 			go func() { ini.Serve(); close(done) }()
@@ -364,6 +388,13 @@ func main() {
 			g2 := append([][]byte(nil), got...)
 			mu.Unlock()
 			compare(c, "inbound/"+mode, sent[0], g2, replay)
+			if oneShot {
+				waitFor(func() bool { mu.Lock(); defer mu.Unlock(); return len(got2) >= nmsg }, 2*time.Second, conn)
+				mu.Lock()
+				g3 := append([][]byte(nil), got2...)
+				mu.Unlock()
+				compare(c, "inbound/"+mode+"/handler-behind-a-self-removing-one", sent[0], g3, replay)
+			}
 			if atomic.LoadInt32(&overlap) != 0 {
 				c.Violate("C04/inbound/two-messages-in-flight", desc+": incoming handler entered concurrently", replay)
 			}
